@@ -23,28 +23,28 @@ macro_rules! transparent_identity {
     };
 }
 
-//@harness transparent_u8 props=C18 target=TransparentKeyBuilder::build_key bounded=no claim=for every u8 key: build_key == (key as u64, 0), deterministic, injective
+//@harness transparent_u8 props=C18,C02,C09,C04,C06 target=TransparentKeyBuilder::build_key bounded=no claim=for every u8 key: build_key == (key as u64, 0), deterministic, injective
 transparent_identity!(transparent_u8, u8);
-//@harness transparent_u16 props=C18 target=TransparentKeyBuilder::build_key bounded=no claim=for every u16 key: build_key == (key as u64, 0), deterministic, injective
+//@harness transparent_u16 props=C18,C02,C09,C04,C06 target=TransparentKeyBuilder::build_key bounded=no claim=for every u16 key: build_key == (key as u64, 0), deterministic, injective
 transparent_identity!(transparent_u16, u16);
-//@harness transparent_u32 props=C18 target=TransparentKeyBuilder::build_key bounded=no claim=for every u32 key: build_key == (key as u64, 0), deterministic, injective
+//@harness transparent_u32 props=C18,C02,C09,C04,C06 target=TransparentKeyBuilder::build_key bounded=no claim=for every u32 key: build_key == (key as u64, 0), deterministic, injective
 transparent_identity!(transparent_u32, u32);
-//@harness transparent_u64 props=C18 target=TransparentKeyBuilder::build_key bounded=no claim=for every u64 key: build_key == (key, 0), deterministic, injective
+//@harness transparent_u64 props=C18,C02,C09,C04,C06 target=TransparentKeyBuilder::build_key bounded=no claim=for every u64 key: build_key == (key, 0), deterministic, injective
 transparent_identity!(transparent_u64, u64);
-//@harness transparent_usize props=C18 target=TransparentKeyBuilder::build_key bounded=no claim=for every usize key: build_key == (key as u64, 0), deterministic, injective
+//@harness transparent_usize props=C18,C02,C09,C04,C06 target=TransparentKeyBuilder::build_key bounded=no claim=for every usize key: build_key == (key as u64, 0), deterministic, injective
 transparent_identity!(transparent_usize, usize);
-//@harness transparent_i8 props=C18 target=TransparentKeyBuilder::build_key bounded=no claim=for every i8 key (negative and boundary values included): build_key == (key as u64, 0), deterministic, injective
+//@harness transparent_i8 props=C18,C02,C09,C04,C06 target=TransparentKeyBuilder::build_key bounded=no claim=for every i8 key (negative and boundary values included): build_key == (key as u64, 0), deterministic, injective
 transparent_identity!(transparent_i8, i8);
-//@harness transparent_i16 props=C18 target=TransparentKeyBuilder::build_key bounded=no claim=for every i16 key: build_key == (key as u64, 0), deterministic, injective
+//@harness transparent_i16 props=C18,C02,C09,C04,C06 target=TransparentKeyBuilder::build_key bounded=no claim=for every i16 key: build_key == (key as u64, 0), deterministic, injective
 transparent_identity!(transparent_i16, i16);
-//@harness transparent_i32 props=C18 target=TransparentKeyBuilder::build_key bounded=no claim=for every i32 key: build_key == (key as u64, 0), deterministic, injective
+//@harness transparent_i32 props=C18,C02,C09,C04,C06 target=TransparentKeyBuilder::build_key bounded=no claim=for every i32 key: build_key == (key as u64, 0), deterministic, injective
 transparent_identity!(transparent_i32, i32);
-//@harness transparent_i64 props=C18 target=TransparentKeyBuilder::build_key bounded=no claim=for every i64 key: build_key == (key as u64, 0), deterministic, injective
+//@harness transparent_i64 props=C18,C02,C09,C04,C06 target=TransparentKeyBuilder::build_key bounded=no claim=for every i64 key: build_key == (key as u64, 0), deterministic, injective
 transparent_identity!(transparent_i64, i64);
-//@harness transparent_isize props=C18 target=TransparentKeyBuilder::build_key bounded=no claim=for every isize key: build_key == (key as u64, 0), deterministic, injective
+//@harness transparent_isize props=C18,C02,C09,C04,C06 target=TransparentKeyBuilder::build_key bounded=no claim=for every isize key: build_key == (key as u64, 0), deterministic, injective
 transparent_identity!(transparent_isize, isize);
 
-//@harness transparent_bool props=C18 target=TransparentKeyBuilder::build_key bounded=no claim=for both bool keys: build_key == (key as u64, 0), distinct keys get distinct indices
+//@harness transparent_bool props=C18,C02,C09,C04,C06 target=TransparentKeyBuilder::build_key bounded=no claim=for both bool keys: build_key == (key as u64, 0), distinct keys get distinct indices
 #[kani::proof]
 fn transparent_bool() {
     let k: bool = kani::any();
@@ -57,7 +57,7 @@ fn transparent_bool() {
     }
 }
 
-//@harness transparent_hasher_write_bytes props=C18 target=TransparentHasher::write bounded=slices_up_to_12_bytes claim=write(bytes) keeps the first min(len, 8) bytes in native order, zero padded, for every byte slice of length 0..=12 (bounded: longer slices take the same >8 branch)
+//@harness transparent_hasher_write_bytes props=C18,C02,C09,C04,C06 target=TransparentHasher::write bounded=slices_up_to_12_bytes claim=write(bytes) keeps the first min(len, 8) bytes in native order, zero padded, for every byte slice of length 0..=12 (bounded: longer slices take the same >8 branch)
 #[kani::proof]
 #[kani::unwind(14)]
 fn transparent_hasher_write_bytes() {
